@@ -13,7 +13,9 @@ def run(ctx):
                        "sequences logged; plus random interval sets with random queries after every call; "
                        "non-trivial = >= 2 calls")
     binary, _ = build.build("rbtree", ["rbtree.cpp"])
-    n = 6 if ctx.quick else 7
+    # (the 7-interval graph with one emitted history per transition exhausts 16 GB of TLC heap after 20 minutes; the
+    # thorough tier therefore replays ALL transitions of the 6-interval graph instead of a sample and deepens the random part)
+    n = 6
     lo, hi = IV[n]
     tour(ctx, binary, "MCIV_%d.cfg" % n, "iv", lo, hi, 20000 if ctx.quick else 300000, "iv_tour",
          extra=["--qmin", "0", "--qmax", "4"], pid="C07")
